@@ -186,17 +186,23 @@ func (f *RegexpFile) Name() string {
 }
 
 func (f *RegexpFile) Readdir(c int) (fi []os.FileInfo, err error) {
-	var rfi []os.FileInfo
-	rfi, err = f.f.Readdir(c)
-	if err != nil {
-		return nil, err
-	}
-	for _, i := range rfi {
-		if i.IsDir() || f.re.MatchString(i.Name()) {
-			fi = append(fi, i)
+	for {
+		var rfi []os.FileInfo
+		rfi, err = f.f.Readdir(c)
+		if err != nil {
+			return nil, err
+		}
+		for _, i := range rfi {
+			if i.IsDir() || f.re.MatchString(i.Name()) {
+				fi = append(fi, i)
+			}
+		}
+		// a page of c > 0 entries may only be empty together with an error (io.EOF at the end):
+		// when every entry of this page was filtered out, read the next one
+		if c <= 0 || len(fi) > 0 || len(rfi) == 0 {
+			return fi, nil
 		}
 	}
-	return fi, nil
 }
 
 func (f *RegexpFile) Readdirnames(c int) (n []string, err error) {
